@@ -202,6 +202,12 @@ func (e *EncResult) AnyErr() bool {
 // Encrypt runs Encrypt -> Write* -> Close (and armor Close) against dst with
 // the spec's tape installed. afterWrite, if set, is called after every call.
 func Encrypt(spec FileSpec, segs []int, dst io.Writer, tape *seam.Tape, afterCall func(accepted int)) *EncResult {
+	return EncryptWith(BuildRecipients(spec.Recips), spec, segs, dst, tape, afterCall)
+}
+
+// EncryptWith is Encrypt with caller-supplied recipient objects (so that one
+// object can be reused across several encryptions).
+func EncryptWith(recipients []age.Recipient, spec FileSpec, segs []int, dst io.Writer, tape *seam.Tape, afterCall func(accepted int)) *EncResult {
 	res := &EncResult{}
 	restore := tape.Install()
 	defer restore()
@@ -212,7 +218,7 @@ func Encrypt(spec FileSpec, segs []int, dst io.Writer, tape *seam.Tape, afterCal
 		aw = armor.NewWriter(dst)
 		out = aw
 	}
-	w, err := age.Encrypt(out, BuildRecipients(spec.Recips)...)
+	w, err := age.Encrypt(out, recipients...)
 	if afterCall != nil {
 		afterCall(0)
 	}
